@@ -149,10 +149,17 @@ func (p *Program) WireCheckMode(ct codecType, mode string) (rep *FuncReport) {
 	if want := p.Store.WireOrder[typeKey(elem)]; len(want) > 0 {
 		// specified field order: the sequence of top-level fields of x that the successive
 		// items of the encoder's stream are computed from
-		got, ok := fieldOrderOf(ex.streamOf(ec, t0), x, elem)
+		got, kinds, ok := fieldOrderOf(ex.streamOf(ec, t0), x, elem)
 		same := ok && len(got) == len(want)
 		for i := 0; same && i < len(want); i++ {
-			same = got[i] == want[i]
+			// an entry is Field or Field/kind+kind (the item kinds the field is transmitted as)
+			w, wk, hasK := strings.Cut(want[i], "/")
+			same = got[i] == w && (!hasK || kinds[i] == wk)
+		}
+		if !same {
+			for i := range got {
+				got[i] += "/" + kinds[i]
+			}
 		}
 		goal := TTrue
 		if !same {
@@ -289,10 +296,10 @@ func (p *Program) wireTotal(ex *Exec, ct codecType, elem types.Type, decT types.
 // fieldOrderOf lists, in stream order, the top-level fields of x that the items of an encoder
 // stream depend on (consecutive repetitions collapsed; an item that depends on no field of x,
 // e.g. a constant tag, is skipped).  ok is false when the stream has no known shape.
-func fieldOrderOf(stream, x *Term, elem types.Type) (order []string, ok bool) {
+func fieldOrderOf(stream, x *Term, elem types.Type) (order []string, kinds []string, ok bool) {
 	st, _ := elem.Underlying().(*types.Struct)
 	if st == nil {
-		return nil, false
+		return nil, nil, false
 	}
 	c := structCtor(elem)
 	fieldOf := map[*Term]string{}
@@ -302,12 +309,16 @@ func fieldOrderOf(stream, x *Term, elem types.Type) (order []string, ok bool) {
 	s := stream
 	for {
 		if s.Op != "ctor" || len(s.Args) == 0 {
-			return order, s.Op == "sym" || (s.Op == "ctor" && len(s.Args) == 0)
+			return order, kinds, s.Op == "sym" || (s.Op == "ctor" && len(s.Args) == 0)
 		}
 		// the last argument of an item constructor is the rest of the stream
 		rest := s.Args[len(s.Args)-1]
 		if rest.Sort != s.Sort {
-			return order, false
+			return order, kinds, false
+		}
+		kind := strings.TrimPrefix(s.Name, "st.")
+		if i := strings.IndexAny(kind, "<:!"); i > 0 {
+			kind = kind[:i]
 		}
 		seen := map[string]bool{}
 		var names []string
@@ -321,6 +332,9 @@ func fieldOrderOf(stream, x *Term, elem types.Type) (order []string, ok bool) {
 		for _, n := range names {
 			if len(order) == 0 || order[len(order)-1] != n {
 				order = append(order, n)
+				kinds = append(kinds, kind)
+			} else {
+				kinds[len(kinds)-1] += "+" + kind
 			}
 		}
 		s = rest
